@@ -55,7 +55,7 @@ fn kv_exp64_spy(x: f64) -> f64 {
 fn kv_close(a: f64, b: f64) -> bool { (a - b).abs() <= 1e-9 * b.abs() }
 
 // @h prop=C13,C14 tier=quick kind=main timeout=600
-// @bounds default compressor (attack 10 ms, release 100 ms), envelope in ANY finite non-negative state per channel; ONE chunk of TWO frames of any finite level <= 1; dt = 1/48000 s. Native replay: the same chunk processed as one chunk of two and as two chunks of one must agree to 1e-6
+// @bounds default compressor (attack 10 ms, release 100 ms), envelope anywhere between 6 and 100 dB per channel; ONE chunk of TWO frames of any level between 0.25 and 1; dt = 1/48000 s. Native replay: the same chunk processed as one chunk of two and as two chunks of one must agree to 1e-6
 // @funcs Compressor::process
 // @assume exp replaced by a recording contract stub; log10 / powf contract stubs
 // @catches the envelope's attack / release speed depending on the chunk length (time constants must be per FRAME: the argument of exp is -dt/duration with the per-frame dt for every frame of a chunk), a time constant other than the configured attack / release durations
@@ -68,7 +68,10 @@ fn c13_compressor_envelope_speed_is_per_frame() {
 	let x: [f32; 2] = kani::any();
 	let e: [f32; 2] = kani::any();
 	kani::assume(x[0].is_finite() && x[0].abs() <= 1.0 && x[1].is_finite() && x[1].abs() <= 1.0);
-	kani::assume(e[0] >= 0.0 && e[0] <= 100.0 && e[1] >= 0.0 && e[1] <= 100.0);
+	// audible input and a charged envelope: the native replay has no spy and compares outputs, which depend on the
+	// envelope speed only if the envelope moves and the signal is not (nearly) silent
+	kani::assume(x[0].abs() >= 0.25 && x[1].abs() >= 0.25);
+	kani::assume(e[0] >= 6.0 && e[0] <= 100.0 && e[1] >= 6.0 && e[1] <= 100.0);
 	let dt = 1.0 / 48000.0;
 	let c: Arena<crate::clock::Clock> = Arena::new(0);
 	let m: Arena<Box<dyn crate::modulator::Modulator>> = Arena::new(0);
